@@ -11,7 +11,7 @@ from harness.common import MachineryError
 
 DRIVER = 'drivers/c08_clock.py'
 U = 1024
-DELTAS = [0, 128, 128, 256, 256, 512, 1024, 2048]
+DELTAS = [0, 128, 128, 256, 256, 512, 1024, 2048, -128]      # a negative delay = already due
 
 
 def gen_program(rnd, pid, small=False):
@@ -75,6 +75,10 @@ def gen_program(rnd, pid, small=False):
             th.append(['sched_abs', c, t, rnd.choice([0, 256, 512, 1024, 4096])])
         else:
             th.append(['sched', c, t, rnd.choice(DELTAS)])
+    for n in names:
+        if n not in top and tasks[n]['kind'] == 'fn' and rnd.random() < 0.15 and not any(
+                op[0] == 'sched' and op[2] == n for t2 in tasks.values() for stp in t2['script'] for op in stp['do']):
+            rnd.choice(threads).append(['sched', tclock[n], n, 'inf'])       # never runs
     for t in top:
         # (only plain functions: a finished routine that is scheduled again is awakened without running its body,
         # which the task wrappers cannot observe)
@@ -190,6 +194,17 @@ def run(ctx):
         raise MachineryError('too many executions with times finer than the trace unit: %d' % len(skipped))
     for t in traces:
         t.pop('branch', None)
+    # vacuity guard: every kind of event the monitor has a clause for must occur in what it is fed
+    hist = {}
+    for t in traces:
+        for e in t['ev']:
+            k = e['op'] + (':' + e['api'] if e['op'] == 'call' else '') + (':' + e['res'] if e['op'] == 'task_end' else '')
+            hist[k] = hist.get(k, 0) + 1
+    ctx.cov['event_histogram'] = dict(sorted(hist.items()))
+    for need in ('call:sched', 'call:sched_abs', 'call:clear', 'call:tempo', 'call:stop', 'task_begin', 'task_end:ret',
+                 'task_end:raise', 'task_end:stop', 'task_end:none', 'wait', 'wake', 'notify', 'tick', 'exit', 'mkclock', 'end'):
+        if not hist.get(need):
+            raise MachineryError('vacuity: no %s event in the recorded executions' % need)
     verdicts = ctx.validate('TraceClock', 'TraceClock.cfg', traces, timeout=1500)
     nontriv = 0
     for t in traces:
